@@ -2,8 +2,8 @@
    RemoveHistory, historyHub.add / getLocked / remove, the idempotent result
    cache) and /repo/internal/memstream/stream.go (Add / Get / Clear), written
    for C18 independently of the C17/C19 models.  Branch by branch, with:
-   * the version fix: Stream.Add only updates the top version when version > 0
-     (DESIGN §8-F2; the unfixed code overwrites it with 0);
+   * Stream.Add only updates the top version when version > 0 (fix 6745c015), and
+     historyHub.add does the version check before the TTL bookkeeping (fix 9899a62b);
    * time: a virtual clock in ms; historyHub expiry (seconds granularity) is an
      IDEALISED janitor that runs whenever time advances (the real goroutines
      poll once per second); the result cache is checked lazily as in the code;
@@ -118,8 +118,6 @@ Definition hub_add (cfg : bcfg) (m : mstate) (ch data : string) (o : popts) (non
       let '(m', (pubs, _)) := hub_get cfg m ch (mkHF None 1 true) (po_meta_ttl o) nonce in
       (m', match pubs with (_, d) :: _ => Some d | [] => None end)
     else (m, None) in
-  let m := mkM (m_streams m) (sput ch (now_s m + Z.to_N (po_ttl o)) (m_expires m)) (m_removes m) (m_cache m) (m_now m) in
-  let m := set_removes cfg m ch (po_meta_ttl o) in
   let skip :=
     if 0 <? po_version o then
       match sfind ch (m_streams m) with
@@ -129,8 +127,10 @@ Definition hub_add (cfg : bcfg) (m : mstate) (ch data : string) (o : popts) (non
       end
     else None in
   match skip with
-  | Some pos => (m, (pos, None, true))
+  | Some pos => (m, (pos, None, true))       (* before the TTL bookkeeping (fix 9899a62b) *)
   | None =>
+      let m := mkM (m_streams m) (sput ch (now_s m + Z.to_N (po_ttl o)) (m_expires m)) (m_removes m) (m_cache m) (m_now m) in
+      let m := set_removes cfg m ch (po_meta_ttl o) in
       let s := match sfind ch (m_streams m) with Some s => s | None => stream_new nonce end in
       let '(s', off) := stream_add s data (po_size o) (po_version o) (po_vepoch o) in
       (set_stream m ch s', ((off, ms_epoch s'), prev, false))
